@@ -394,6 +394,12 @@ def _owned(m: Module, f: Func | None, recv: ast.AST | None, _seen: set | None = 
                 cn = (call_name(it) or "").split(".")[-1] if isinstance(it, ast.Call) else ""
                 if cn in ("parse", "parse_into"):
                     return True, f"element of {cn}(...) (freshly parsed)"
+                if isinstance(it, (ast.Tuple, ast.List)) and it.elts and isinstance(lp.target, ast.Name):
+                    # `for q in (a.this, a.expression)`: owned iff every listed tree is
+                    oks = [_owned(m, f, e, set(_seen or ()) | {recv.id}) for e in it.elts]
+                    if all(o for o, _ in oks):
+                        return True, f"loop variable over owned trees ({oks[0][1]})"
+                    return False, f"loop variable over {norm(it, 40)}: {[w for o, w in oks if not o][0]}"
                 return False, f"loop variable over {norm(it, 40)}"
         if defs:
             _seen = set(_seen or ()) | {recv.id}
